@@ -706,7 +706,15 @@ func ruleC05R3(r *Run) {
 					name := strings.TrimPrefix(key, rapidPath+".")
 					name = strings.Replace(name, "[...]", "", -1)
 					name = strings.Replace(name, ".func", "$", 1)
-					r.Check("tracebackBlacklist."+name, mu.Pos(), p.Fn(name) != nil, "blacklisted frame "+key+" names an existing function", "tracebackBlacklist entry "+key+" names no existing function ("+name+"): a frame that differs between runs enters the traceback comparison")
+					bf := p.Fn(name)
+					r.Check("tracebackBlacklist."+name, mu.Pos(), bf != nil, "blacklisted frame "+key+" names an existing function", "tracebackBlacklist entry "+key+" names no existing function ("+name+"): a frame that differs between runs enters the traceback comparison")
+					if bf != nil {
+						// only re-panicking recover filters may be hidden: they sit on top of the real failure frames.
+						// Hiding any other function removes frames that distinguish a failure from a skip (or one site from another).
+						class, _ := r.classifyRecoverFn(bf)
+						r.Check("tracebackBlacklist."+name+"#is-recover-filter", mu.Pos(), class == "B", "the hidden frame is an invalidData recover filter (re-panics everything else)",
+							"tracebackBlacklist hides "+key+", which is not a re-panicking recover filter: leading frames that tell a real failure from a skipped test case (or two failure sites apart) are dropped from the comparison, so minimisation can move to a test case that does not fail at all")
+					}
 				}
 			}
 		}
